@@ -203,10 +203,12 @@ CHECKS = {
     "C17": dict(
         engine="QtlSorted",
         level="model_checking",
-        text="TLC exhausts every call sequence up to 6 (quick) / 8 (thorough) calls of QtlSorted.tla and proves "
-             "ClassSorted/OneFormatter/StableWithinClass on the documented placement rule; the real SortedPipeline is "
-             "bound to it by trace validation: all sequences of 4 (5) calls plus random long ones are executed on the "
-             "real class and every resulting handlers() list must be the spec's next state.",
+        text="TLC exhausts every call sequence up to 6 (quick) / 7 (thorough) calls of QtlSorted.tla - including calls "
+             "that pass a handler object a second time - and checks ClassSorted/OneFormatter/StableWithinClass on the "
+             "documented placement rule; in the thorough tier Apalache additionally shows that their conjunction is "
+             "inductive for all lists of up to 5 entries (spec/ApaSorted.tla). The real SortedPipeline is bound to the "
+             "module by trace validation: all sequences of 4 (5) calls plus random long ones are executed on the real "
+             "class and every resulting handlers() list must be the spec's next state.",
         design="5/C17",
         note="Trusts TLC, the Json community module, and the driver's numbering of handlers in call order.",
         technique=TECH,
